@@ -137,9 +137,17 @@ def explore(res, rng, n):
                  (lambda X: 0.9 * X[0] - 1.1 * X[1] - 25.3)))
     flat.append(('linear-engineering-magnitudes-correlated', [stats.norm(2.0e5, 1.5e4), stats.norm(1.2e5, 2.0e4)], [[1.0, 0.4], [0.4, 1.0]],
                  (lambda X: X[0] - X[1] - 1.0e4)))
+    # limit states of one variable only: the design direction is exactly +-e_i
+    flat.append(('single-variable-plus', [stats.norm(), stats.norm()], [[1.0, 0.0], [0.0, 1.0]], (lambda X: X[1] + 2.0)))
+    flat.append(('single-variable-minus', [stats.norm(), stats.norm(), stats.norm()], [[1.0, 0.0, 0.0], [0.0, 1.0, 0.0], [0.0, 0.0, 1.0]], (lambda X: 2.5 - X[1])))
+    flat.append(('single-variable-first', [stats.norm(1, 2), stats.norm(), stats.norm()], [[1.0, 0.0, 0.0], [0.0, 1.0, 0.0], [0.0, 0.0, 1.0]], (lambda X: X[0] + 4.0)))
     s = 0.5
     flat.append(('lognormal-product', [stats.lognorm(s), stats.lognorm(s)], [[1.0, 0.0], [0.0, 1.0]],
                  (lambda X: 2.0 - math.log(X[0]) - math.log(X[1]))))
+    # correlated non-normal marginals: ln x1 + ln x2 is linear in z = L u, hence flat in U space
+    for rho_ in (-0.6, 0.5, 0.8):
+        flat.append(('lognormal-product-correlated', [stats.lognorm(0.5), stats.lognorm(0.3)], [[1.0, rho_], [rho_, 1.0]],
+                     (lambda X: X[0] * X[1] - 0.3)))
     flat.append(('lognormal-ratio', [stats.lognorm(0.3), stats.lognorm(0.4)], [[1.0, 0.0], [0.0, 1.0]],
                  (lambda X: math.log(X[0]) - math.log(X[1]) + 1.2)))
     for name, dists, corr, g in flat:
@@ -147,8 +155,9 @@ def explore(res, rng, n):
         res.stat('flat_' + name)
         case = {'problem': name, 'corr': corr}
         try:
-            bf, pff, _, _ = rrm.coptFORM(2, g, dists, corr)
-            full = {nm: f(2, g, None, dists, corr) for nm, f in (('breitung', rrm.breitungSORM), ('tvedt', rrm.tvedtSORM), ('hrack', rrm.hrackSORM))}
+            dimf = len(dists)
+            bf, pff, _, _ = rrm.coptFORM(dimf, g, dists, corr)
+            full = {nm: f(dimf, g, None, dists, corr) for nm, f in (('breitung', rrm.breitungSORM), ('tvedt', rrm.tvedtSORM), ('hrack', rrm.hrackSORM))}
             outs = {nm: v[1] for nm, v in full.items()}
             for nm, v in full.items():
                 if abs(v[0] - bf) > 1e-6 * (1 + abs(bf)):
